@@ -717,6 +717,76 @@ class PathEval:
         self.env.update(outer)
         return False
 
+    def _minmax_loop(self, s: ast.For) -> bool:
+        """acc = E(0); for i in range(1, N): c = E(i); if c < acc: acc = c      ->   acc = min(E(i) for i in range(N))   (max alike;
+        also acc = min(acc, c)); with a start that is not E(0) the first value is kept as an extra element."""
+        if not isinstance(s.target, ast.Name):
+            return False
+        i = s.target.id
+        it = s.iter
+        if not (isinstance(it, ast.Call) and isinstance(it.func, ast.Name) and it.func.id == 'range' and 1 <= len(it.args) <= 2 and not it.keywords):
+            return False
+        body = [b for b in s.body if not is_noise_stmt(b) and not isinstance(b, ast.Pass)]
+        local = {}
+
+        def sub(e):
+            env2 = {k: v for k, v in self.env.items() if k != i}
+            return ast.fix_missing_locations(_Subst({**env2, **local}).visit(copy.deepcopy(e)))
+        last = body[-1] if body else None
+        for b in body[:-1]:
+            if isinstance(b, ast.Assign) and len(b.targets) == 1 and isinstance(b.targets[0], ast.Name):
+                local[b.targets[0].id] = sub(b.value)
+            else:
+                return False
+        acc = op = cell = None
+        if isinstance(last, ast.If) and not last.orelse and len(last.body) == 1 and isinstance(last.body[0], ast.Assign) and isinstance(last.body[0].targets[0], ast.Name) \
+                and isinstance(last.test, ast.Compare) and len(last.test.ops) == 1 and isinstance(last.test.ops[0], (ast.Lt, ast.Gt, ast.LtE, ast.GtE)):
+            acc = last.body[0].targets[0].id
+            l, r = last.test.left, last.test.comparators[0]
+            lt = isinstance(last.test.ops[0], (ast.Lt, ast.LtE))
+            if isinstance(r, ast.Name) and r.id == acc:
+                cell, op = sub(l), ('min' if lt else 'max')
+            elif isinstance(l, ast.Name) and l.id == acc:
+                cell, op = sub(r), ('max' if lt else 'min')
+            else:
+                return False
+            if ast.unparse(sub(last.body[0].value)) != ast.unparse(cell):
+                return False
+        elif isinstance(last, ast.Assign) and len(last.targets) == 1 and isinstance(last.targets[0], ast.Name) and isinstance(last.value, ast.Call) and isinstance(last.value.func, ast.Name) \
+                and last.value.func.id in ('min', 'max') and len(last.value.args) == 2:
+            acc, op = last.targets[0].id, last.value.func.id
+            others = [a for a in last.value.args if not (isinstance(a, ast.Name) and a.id == acc)]
+            if len(others) != 1:
+                return False
+            cell = sub(others[0])
+        else:
+            return False
+        start = self.env.get(acc)
+        if start is None:
+            return False
+
+        class _At(ast.NodeTransformer):
+            def __init__(self, k):
+                self.k = k
+
+            def visit_Name(self, node):
+                return ast.copy_location(ast.Constant(self.k), node) if node.id == i and isinstance(node.ctx, ast.Load) else node
+        lo = it.args[0] if len(it.args) == 2 else ast.Constant(0)
+        hi = it.args[-1]
+        gen_range = None
+        if isinstance(lo, ast.Constant) and lo.value == 1 and ast.unparse(_At(0).visit(copy.deepcopy(cell))) == ast.unparse(start):
+            gen_range = ast.Call(func=ast.Name('range', ast.Load()), args=[self.subst(hi)], keywords=[])
+            gen = ast.GeneratorExp(elt=cell, generators=[ast.comprehension(target=ast.Name(i, ast.Store()), iter=gen_range, ifs=[], is_async=0)])
+            val = ast.Call(func=ast.Name(op, ast.Load()), args=[gen], keywords=[])
+        else:
+            gen = ast.ListComp(elt=cell, generators=[ast.comprehension(target=ast.Name(i, ast.Store()), iter=self.subst(it), ifs=[], is_async=0)])
+            val = ast.Call(func=ast.Name(op, ast.Load()), args=[ast.BinOp(left=ast.List([copy.deepcopy(start)], ast.Load()), op=ast.Add(), right=gen)], keywords=[])
+        self.env[acc] = ast.fix_missing_locations(val)
+        self.env[i] = None
+        for k in local:
+            self.env[k] = None
+        return True
+
     def _effect_loop(self, s: ast.For) -> bool:
         """A loop whose body only applies effects to containers, possibly under guards on the loop variables:
              for T in IT: [if c(T): continue] ... obj.method(f(T)) / d[k(T)] = v(T) / d[k(T)] += v / del d[k(T)]
@@ -1012,6 +1082,9 @@ class PathEval:
                         and not any(isinstance(x, ast.Name) and x.id == a0.key.id for x in ast.walk(a0.value)):
                     self.res.updates.append(dict(kind='storeall', target=self.subst(s.value.func.value), over=self.subst(a0.generators[0].iter), key=None, value=self.subst(a0.value), node=s))
                     return None
+            if isinstance(s, ast.For) and not s.orelse and self._minmax_loop(s):
+                self._summarised = True
+                return None
             if isinstance(s, ast.For) and not s.orelse and (self._store_loop(s) or self._effect_loop(s)):
                 return None      # (containers written by the loop are invalidated by the caller)
             if isinstance(s, ast.AugAssign) and isinstance(s.target, ast.Name):
